@@ -8,8 +8,10 @@ into a failing obligation):
                `for v in range(e)` / `prange(e)`, `if c:` (no else),
                `a = np.empty(n, ...)` / `np.zeros(n, ...)` / `np.empty_like(b)`,
                `out[a:b] = src[a:b][::-1]`, `return name`
-  expressions  integer + - * //, float /, constants, `a[i]`, `np.sum(a[i:j])`,
-               `len(a)`
+  expressions  integer + - * // %, float /, float `//` (floor of the exact quotient),
+               constants (floats as exact fractions), module-level float constants,
+               `a[i]`, `np.sum(a[i:j])`, `len(a)`, `int(x)` (truncation; as an index: `.toNat`),
+               `abs(int(x))`
 
 Arrays become total functions `Nat → α` (`Loop.upd` for a store), loops become
 `Loop.forRange n state (fun i state => …)` over the variables the body mutates,
@@ -28,14 +30,24 @@ INDEX_ARRAYS = {"delays", "chan_to_sub"}        # i4 arrays holding indices / sa
 BOOL_ARRAYS = {"mask"}
 
 
+def rat_literal(x: float) -> str:
+    """a non-negative Python float as the exact rational it denotes"""
+    from fractions import Fraction
+    fr = Fraction(x)
+    if fr.denominator == 1:
+        return f"({fr.numerator} : Rat)"
+    return f"(({fr.numerator} : Rat) / ({fr.denominator} : Rat))"
+
+
 def arr_ty(elem: str) -> str:
     return f"Nat → {elem}"
 
 
 class Kernel:
-    def __init__(self, fn: ast.FunctionDef, exec_twin: bool = False):
+    def __init__(self, fn: ast.FunctionDef, exec_twin: bool = False, consts: dict[str, float] | None = None):
         self.fn = fn
         self.exec_twin = exec_twin
+        self.consts = dict(consts or {})     # module-level float constants
         self.name = fn.name
         self.types: dict[str, str] = {}      # scalar name -> NAT | RAT
         self.arrays: dict[str, str] = {}     # array name -> element type
@@ -114,6 +126,8 @@ class Kernel:
         if isinstance(n, ast.Name):
             if n.id in self.types:
                 return self.types[n.id]
+            if n.id in self.consts:
+                return RAT
             raise Untranslatable(f"untyped name `{n.id}`")
         if isinstance(n, ast.BinOp):
             if isinstance(n.op, ast.Div):
@@ -121,7 +135,9 @@ class Kernel:
             a, b = self.type_of(n.left), self.type_of(n.right)
             if isinstance(n.op, (ast.Add, ast.Sub, ast.Mult)):
                 return NAT if a == b == NAT else RAT
-            if isinstance(n.op, ast.FloorDiv) and a == b == NAT:
+            if isinstance(n.op, ast.FloorDiv):
+                return NAT if a == b == NAT else RAT
+            if isinstance(n.op, ast.Mod) and a == b == NAT:
                 return NAT
         if isinstance(n, ast.Subscript) and isinstance(n.value, ast.Name) and n.value.id in self.arrays \
                 and not isinstance(n.slice, ast.Slice):
@@ -131,6 +147,11 @@ class Kernel:
             if f == "np.sum":
                 return RAT
             if f == "len":
+                return NAT
+            if f == "int" and len(n.args) == 1:
+                return NAT
+            if f == "abs" and len(n.args) == 1 and isinstance(n.args[0], ast.Call) \
+                    and ast.unparse(n.args[0].func) == "int":
                 return NAT
         raise Untranslatable(f"cannot type `{ast.unparse(n)}`")
 
@@ -147,13 +168,18 @@ class Kernel:
         if isinstance(n, ast.Constant) and not isinstance(n.value, bool):
             if isinstance(n.value, int) and n.value >= 0:
                 return str(n.value), NAT
-            if isinstance(n.value, float) and n.value == int(n.value) and n.value >= 0:
-                return f"({int(n.value)} : Rat)", RAT
+            if isinstance(n.value, float) and n.value >= 0:
+                return rat_literal(n.value), RAT
         if isinstance(n, ast.Name) and n.id in self.types:
             return n.id, self.types[n.id]
+        if isinstance(n, ast.Name) and n.id in self.consts and self.consts[n.id] >= 0:
+            return rat_literal(self.consts[n.id]), RAT
         if isinstance(n, ast.BinOp):
             t = self.type_of(n)
-            ops = {ast.Add: "+", ast.Sub: "-", ast.Mult: "*", ast.FloorDiv: "/", ast.Div: "/"}
+            if isinstance(n.op, ast.FloorDiv) and t == RAT:
+                # Python float floor division: the floor of the exact quotient, as a float
+                return f"(Loop.floorDivQ {self.expr(n.left, RAT)} {self.expr(n.right, RAT)})", RAT
+            ops = {ast.Add: "+", ast.Sub: "-", ast.Mult: "*", ast.FloorDiv: "/", ast.Div: "/", ast.Mod: "%"}
             if type(n.op) in ops:
                 return f"({self.expr(n.left, t)} {ops[type(n.op)]} {self.expr(n.right, t)})", t
         if isinstance(n, ast.Subscript) and isinstance(n.value, ast.Name) and n.value.id in self.arrays \
@@ -173,6 +199,15 @@ class Kernel:
                 if a not in self.extra_len:
                     self.extra_len.append(a)
                 return f"{a}_len", NAT
+            if f == "int" and len(n.args) == 1:
+                text, t = self._expr(n.args[0])
+                # only used where the value is an array index or a count: non-negative in every use,
+                # so the truncated integer is taken as a natural number
+                return (text, NAT) if t == NAT else (f"(Loop.pyInt {text}).toNat", NAT)
+            if f == "abs" and len(n.args) == 1 and isinstance(n.args[0], ast.Call) \
+                    and ast.unparse(n.args[0].func) == "int" and len(n.args[0].args) == 1:
+                text, t = self._expr(n.args[0].args[0])
+                return (text, NAT) if t == NAT else (f"(Loop.pyInt {text}).natAbs", NAT)
         raise Untranslatable(f"expression `{ast.unparse(n)}`")
 
     def cond(self, n: ast.AST) -> str:
@@ -324,6 +359,6 @@ class Kernel:
         return f"def {self.name} {params} : {rty} :=\n{text}\n"
 
 
-def translate_kernel(fn: ast.FunctionDef) -> str:
+def translate_kernel(fn: ast.FunctionDef, consts: dict[str, float] | None = None) -> str:
     """the kernel as a functional program, and its executable twin (same walk, loops tabulate their state)"""
-    return Kernel(fn).translate() + "\n" + Kernel(fn, exec_twin=True).translate()
+    return Kernel(fn, consts=consts).translate() + "\n" + Kernel(fn, exec_twin=True, consts=consts).translate()
